@@ -64,6 +64,12 @@ pub struct Plan {
 
 /// Draw a fault plan over the positions of the baseline.
 pub fn draw_plan(flavour: Flavour, base: &ExecLike, max_faults: u32, only_nullable_fields: bool) -> Plan {
+    draw_plan_opt(flavour, base, max_faults, only_nullable_fields, true)
+}
+
+/// `guards`: whether guard rejections may be planted (a guard cannot tell which subscription event it
+/// runs for, so plans for subscriptions leave them out).
+pub fn draw_plan_opt(flavour: Flavour, base: &ExecLike, max_faults: u32, only_nullable_fields: bool, guards: bool) -> Plan {
     let fmap = field_map(&[&base.log]);
     let mut cands: Vec<(String, bool)> = fmap.keys().map(|p| (p.clone(), false)).collect();
     if !only_nullable_fields {
@@ -108,7 +114,10 @@ pub fn draw_plan(flavour: Flavour, base: &ExecLike, max_faults: u32, only_nullab
                 }
             }
             let kinds = kinds_for(flavour, parent, field);
-            let k = kinds[draw(kinds.len() as u32) as usize];
+            let mut k = kinds[draw(kinds.len() as u32) as usize];
+            if !guards && k == Fault::GuardReject {
+                k = Fault::ResolverError;
+            }
             plan.faults.insert(p, k);
         }
     }
@@ -301,7 +310,7 @@ fn run_subscription(flavour: Flavour, out: &mut CaseOut) {
     }
     // faults: positions of the first event's baseline (same paths in every event)
     let basel = ExecLike { data: data_of(&base.responses[0]), log: base.log.clone() };
-    let plan = draw_plan(flavour, &basel, 2, false);
+    let plan = draw_plan_opt(flavour, &basel, 2, false, false);
     set_plan(&plan.faults, &plan.item_faults);
     set_latency(draw(1 << 16) as u64, [1u32, 0, 2][draw(3) as usize]);
     let params = sim::draw_params();
@@ -319,12 +328,21 @@ fn run_subscription(flavour: Flavour, out: &mut CaseOut) {
     root_types.insert(key.clone(), root_ty);
     // per event: split logs by node ancestry is not needed — events are sequential, so split the log
     // at each response boundary using the event's node id range
-    for (i, resp) in run.responses.iter().enumerate() {
+    let mut answered: std::collections::BTreeSet<usize> = Default::default();
+    for resp in run.responses.iter() {
+        // which event does this response answer? by the id it carries, else the first unanswered one
+        // (events of one root field need not be resolved strictly one after the other)
+        let by_id = data_of(resp)[&key]["id"].as_i64().map(|v| (v - 100) as usize).filter(|i| *i < n_events as usize && !answered.contains(i));
+        let Some(i) = by_id.or_else(|| (0..n_events as usize).find(|i| !answered.contains(i))) else {
+            out.viol("C03/stall", format!("more responses than events; query: {query}"));
+            return;
+        };
+        answered.insert(i);
         let base_i = ExecLike { data: data_of(&base.responses[i]), log: base.log.clone() };
         // events are strictly sequential here: failures of event i are those logged between
         // response i-1 and response i; the log carries no marker, so attribute by order: count
         // the failures per path across events instead
-        let fl: Vec<super::world::REvent> = split_event_log(&run.log, &key, i);
+        let fl: Vec<super::world::REvent> = run.log.iter().filter(|e| e.ev == 100 + i as i32).cloned().collect();
         out.nontrivial |= !failures(&fl).is_empty();
         let got_errs = error_set(resp);
         match expected(&base_i, &fl, &root_types, &got_errs) {
